@@ -215,13 +215,51 @@ class Flattener:
         for kw in call.keywords:
             got[kw.arg] = kw.value
         defaults = g.defaults()
+        # a parameter the helper never rebinds, handed a plain name / attribute chain / constant whose
+        # attributes the helper does not store to, is replaced by that expression itself (the flattened
+        # text then reads like the hand-inlined code: `if k not in self.cache: self.cache[k] = ...`)
+        stored_names = {n.id for s in body for n in ast.walk(s) if isinstance(n, ast.Name) and isinstance(n.ctx, (ast.Store, ast.Del))}
+        stored_attrs = {n.attr for s in body for n in ast.walk(s) if isinstance(n, ast.Attribute) and isinstance(n.ctx, (ast.Store, ast.Del))}
+
+        def plain(a):
+            if isinstance(a, ast.Constant):
+                return True
+            chain = []
+            while isinstance(a, ast.Attribute):
+                chain.append(a.attr)
+                a = a.value
+            return isinstance(a, ast.Name) and not (set(chain) & stored_attrs)
+        direct = {}
         for p_ in callparams + [a.arg for a in g.node.args.kwonlyargs]:
+            if p_ in got and rename[p_] not in stored_names and plain(got[p_]):
+                direct[rename[p_]] = got[p_]
+                continue
             if p_ in got:
                 pre.append(assign(rename[p_], _clone(got[p_]), call))
             elif p_ in defaults:
                 pre.append(assign(rename[p_], _clone(defaults[p_]), call))
             else:
                 return None
+        if direct:
+            def put(node):
+                for fld, val in ast.iter_fields(node):
+                    if isinstance(val, list):
+                        for i_, x in enumerate(val):
+                            if isinstance(x, ast.Name) and x.id in direct and isinstance(x.ctx, ast.Load):
+                                val[i_] = ast.copy_location(_clone(direct[x.id]), x)
+                                for y in ast.walk(val[i_]):
+                                    ast.copy_location(y, x)
+                            elif isinstance(x, ast.AST):
+                                put(x)
+                    elif isinstance(val, ast.Name) and val.id in direct and isinstance(val.ctx, ast.Load):
+                        new_ = _clone(direct[val.id])
+                        for y in ast.walk(new_):
+                            ast.copy_location(y, val)
+                        setattr(node, fld, new_)
+                    elif isinstance(val, ast.AST):
+                        put(val)
+            for s in body:
+                put(s)
         res = '__r%d' % k
         rets = [n for s in body for n in ast.walk(s) if isinstance(n, ast.Return)]
         tail_only = len(rets) == 1 and body and rets[0] is body[-1]
@@ -272,7 +310,77 @@ class Flattener:
             out += self.stmt(st, stack)
         return out
 
+    def _desugar(self, st):
+        """spell out, statement by statement, what a loop / comprehension over a literal of plain names does:
+             a, b = (E(e) for e in (X, Y))      ->   a = E(X); b = E(Y)
+             for e in (X, Y): e /= d            ->   X /= d; Y /= d
+        (None when st is not of this kind)"""
+        def plain(a):
+            while isinstance(a, ast.Attribute):
+                a = a.value
+            return isinstance(a, ast.Name)
+
+        def put(node, name, value):
+            def rec(n):
+                for fld, val in ast.iter_fields(n):
+                    if isinstance(val, list):
+                        for i_, x in enumerate(val):
+                            if isinstance(x, ast.Name) and x.id == name:
+                                val[i_] = _retarget(value, x)
+                            elif isinstance(x, ast.AST):
+                                rec(x)
+                    elif isinstance(val, ast.Name) and val.id == name:
+                        setattr(n, fld, _retarget(value, val))
+                    elif isinstance(val, ast.AST):
+                        rec(val)
+            node = _clone(node)
+            if isinstance(node, ast.Name) and node.id == name:
+                return _retarget(value, node)
+            rec(node)
+            return node
+
+        def _retarget(value, like):
+            v = _clone(value)
+            if hasattr(v, 'ctx'):
+                v.ctx = like.ctx.__class__()
+            for y in ast.walk(v):
+                ast.copy_location(y, like)
+            return v
+        if isinstance(st, ast.Assign) and len(st.targets) == 1 and isinstance(st.targets[0], ast.Tuple) and \
+           isinstance(st.value, (ast.GeneratorExp, ast.ListComp)) and len(st.value.generators) == 1:
+            g = st.value.generators[0]
+            if isinstance(g.target, ast.Name) and not g.ifs and isinstance(g.iter, (ast.Tuple, ast.List)) and \
+               len(g.iter.elts) == len(st.targets[0].elts) <= 6 and all(plain(e) for e in g.iter.elts) and \
+               all(isinstance(t, ast.Name) for t in st.targets[0].elts):
+                out = []
+                for t, e in zip(st.targets[0].elts, g.iter.elts):
+                    a = ast.Assign(targets=[_clone(t)], value=put(st.value.elt, g.target.id, e))
+                    ast.copy_location(a, st)
+                    ast.fix_missing_locations(a)
+                    out.append(a)
+                return out
+        if isinstance(st, ast.For) and not st.orelse and isinstance(st.target, ast.Name) and \
+           isinstance(st.iter, (ast.Tuple, ast.List)) and 1 <= len(st.iter.elts) <= 4 and \
+           all(plain(e) for e in st.iter.elts) and len(st.body) <= 3 and \
+           not any(isinstance(n, (ast.Break, ast.Continue, ast.For, ast.While, ast.If, ast.Try, ast.With, ast.Return))
+                   for b in st.body for n in ast.walk(b)) and \
+           not any(isinstance(n, ast.Name) and n.id == st.target.id and isinstance(n.ctx, ast.Store) and
+                   not (isinstance(b, ast.AugAssign) and b.target is n)
+                   for b in st.body for n in ast.walk(b)):
+            out = []
+            for e in st.iter.elts:
+                for b in st.body:
+                    nb = put(b, st.target.id, e)
+                    ast.copy_location(nb, b)
+                    ast.fix_missing_locations(nb)
+                    out.append(nb)
+            return out
+        return None
+
     def stmt(self, st, stack):
+        des = self._desugar(st)
+        if des is not None:
+            return self.block(des, stack)
         for fld in ('body', 'orelse', 'finalbody'):
             if hasattr(st, fld) and isinstance(getattr(st, fld), list) and not isinstance(st, (ast.FunctionDef, ast.ClassDef)):
                 setattr(st, fld, self.block(getattr(st, fld), stack))
